@@ -14,6 +14,7 @@ R6 emptiness witness: the quantity block_builder_empty tests is emptied by reset
    provably positive amount on every path of block_builder_add (else a block is silently skipped).
 D  rests on: C20 (every byte the writer produces must reach the file whatever write(2) does); C16 (lengths and offsets in the file are written and read with these codecs) - re-run here as <id>.D.<rule>.
 R7 container contract (rules/vecrule.py): libmy/vector.h keeps its invariants, element preservation, post-conditions and memory safety in every scenario (every buffer of the writer and the block builder is one of these vectors).
+R8 dispatch wiring (rules/dispatch.py): the mtbl_iter / mtbl_source function tables are registered, called (own closure, own slot, parameters forwarded in order) and filled at every construction site without cross-wiring slots of equal signature.
 """
 import re
 from .common import *
@@ -259,6 +260,10 @@ def run(ctx, res):
     # ---- container contract ---------------------------------------------------------------------
     from . import vecrule
     vecrule.check(ctx, res, "C01.R7")
+
+    # ---- dispatch wiring --------------------------------------------------------------------------
+    from . import dispatch
+    dispatch.check(ctx, res, "C01.R8")
 
 GROW = {"ubuf_advance": 1, "ubuf_append": 2, "ubuf_add": None}
 SHRINK = ("ubuf_reset", "ubuf_clip", "ubuf_detach", "ubuf_destroy")
